@@ -1469,3 +1469,10 @@ _CIF_OLD = "    let i_as_f = i as f64;\n    i_as_f.partial_cmp(&f).unwrap_or(Ord
 canary('c11-float-saturating-narrow', 'C11', 'crates/erltf/src/term.rs', _CIF_OLD, "    if f.abs() >= 9_007_199_254_740_992.0 {\n        return i.cmp(&(f as i64));\n    }\n" + _CIF_OLD, 'float-as-int')
 benign('benign-c11-float-bounded-narrow', 'C11', 'crates/erltf/src/term.rs', _CIF_OLD, "    if f.abs() < 1.0 && i == 0 {\n        let _t = f as i64;\n    }\n" + _CIF_OLD,
        more=[('crates/erltf/src/borrowed.rs', _CIF_OLD, "    if f.abs() < 1.0 && i == 0 {\n        let _t = f as i64;\n    }\n" + _CIF_OLD)])
+benign('benign-c09-refresh-at-stores', 'C09', 'crates/edp_client/src/fragmentation.rs', "    fn add_fragment(&mut self, fragment_id: u64, data: Vec<u8>) {\n        self.last_update = Instant::now();\n", "    fn add_fragment(&mut self, fragment_id: u64, data: Vec<u8>) {\n",
+       more=[('crates/edp_client/src/fragmentation.rs', "                        self.fragments[idx] = Some(data);\n                        self.received_count += 1;\n                    }\n                }\n            }\n        } else if let Entry::Vacant(e) = self.pending_fragments.entry(fragment_id) {\n            e.insert(data);",
+              "                        self.fragments[idx] = Some(data);\n                        self.received_count += 1;\n                        self.last_update = Instant::now();\n                    }\n                }\n            }\n        } else if let Entry::Vacant(e) = self.pending_fragments.entry(fragment_id) {\n            e.insert(data);\n            self.last_update = Instant::now();")])
+benign('benign-c18-links-btreeset', 'C18', 'crates/edp_node/src/process.rs', "    links: Arc<RwLock<HashSet<ExternalPid>>>,", "    links: Arc<RwLock<std::collections::BTreeSet<ExternalPid>>>,",
+       more=[('crates/edp_node/src/process.rs', "            links: Arc::new(RwLock::new(HashSet::new())),", "            links: Arc::new(RwLock::new(std::collections::BTreeSet::new())),")])
+benign('benign-c16-creation-allocator-first', 'C16', 'crates/edp_node/src/node.rs', "        self.creation.store(creation, Ordering::SeqCst);\n        self.pid_allocator.set_creation(creation);", "        self.pid_allocator.set_creation(creation);\n        self.creation.store(creation, Ordering::SeqCst);")
+benign('benign-c04-cookie-owned-copy', 'C04', 'crates/edp_client/src/state_machine.rs', "        Self {\n            state: ConnectionState::Disconnected,", "        let cookie = String::from(cookie.as_str());\n        Self {\n            state: ConnectionState::Disconnected,")
